@@ -16,7 +16,10 @@ struct RouterSession : Session {
     struct PinM { int cls; double xo, yo; bool prop; double inside; unsigned dirs; bool excl; Avoid::ShapeConnectionPin *ref; };
     struct Sh { Poly poly; bool alive = false; bool isRect = false; Avoid::ShapeRef *ref = nullptr; std::vector<PinM> pins; };
     struct End { int kind = 0; Pt pt{0, 0}; unsigned dirs = 15; int shape = -1, cls = 0; int junction = -1; };   // kind 0 point, 1 shape pin, 2 junction, 3 detached
-    struct Cn { End e[2]; Avoid::ConnRef *ref = nullptr; bool alive = false; bool hyperedge = false; bool fixedRoute = false; bool cpStale = false; bool detachedByDelete = false; std::vector<Pt> checkpoints; int hyper = -1; };
+    struct Cn { End e[2]; Avoid::ConnRef *ref = nullptr; bool alive = false; bool hyperedge = false; bool fixedRoute = false; bool cpStale = false; bool detachedByDelete = false; std::vector<Pt> checkpoints; std::vector<std::pair<unsigned, unsigned>> cpDirs; int hyper = -1;
+        // checkpoints with their arrival / departure direction masks (ConnDirAll when none was given)
+        std::vector<Avoid::Checkpoint> mkCheckpoints() const { std::vector<Avoid::Checkpoint> v; for (size_t i = 0; i < checkpoints.size(); i++) { unsigned a = i < cpDirs.size() ? cpDirs[i].first : 15u, d = i < cpDirs.size() ? cpDirs[i].second : 15u; v.push_back(a == 15 && d == 15 ? Avoid::Checkpoint(Avoid::Point(checkpoints[i].x, checkpoints[i].y)) : Avoid::Checkpoint(Avoid::Point(checkpoints[i].x, checkpoints[i].y), (Avoid::ConnDirFlags)a, (Avoid::ConnDirFlags)d)); } return v; }
+        void setCheckpointsFrom(const Json &arr) { checkpoints.clear(); cpDirs.clear(); for (auto &q : arr.a) { checkpoints.push_back(Pt{q[0].num(), q[1].num()}); cpDirs.push_back({q.size() >= 4 ? (unsigned)q[2].i(15) : 15u, q.size() >= 4 ? (unsigned)q[3].i(15) : 15u}); } } };
     struct Jn { Pt pt; bool alive = false; Avoid::JunctionRef *ref = nullptr; bool fixed = false; };
     struct CbCtx { RouterSession *s; int conn; };
 
